@@ -350,13 +350,17 @@ def analyse(body, dim, cg, acc_filter=None):
         for d in disagree:
             r = fl.reach([d])
             errs = bool(r & err_b)
+            maybe_ok = False
             for x in r:
                 tt = b.blocks[x]["t"]
                 if tt["k"] == "call" and tt["d"][0] == 0 and not callee(tt).endswith("from_residual"):
+                    # the function's result is whatever this callee returns: an error exit only if the callee can only fail
                     kb2 = cg.bodies.get(callee(tt))
                     if kb2 is not None and always_err(kb2):
                         errs = True
-            if (r & push_blocks) or (r & producers) or (r & ok_b) or (r & conc) or not errs:
+                    else:
+                        maybe_ok = True
+            if (r & push_blocks) or (r & producers) or (r & ok_b) or (r & conc) or maybe_ok or not errs:
                 good = False
         res["err_ok"] = good
     res["push_blocks"] = push_blocks
